@@ -316,7 +316,13 @@ shared_ptr<IDataArray> BlockHDF5::createDataArray(const std::string &name,
     auto da = make_shared<DataArrayHDF5>(file(), block(), group, id, type, name);
 
     // now create the actual H5::DataSet
-    da->createData(data_type, shape, compression == Compression::Auto ? compr : compression);
+    try {
+        da->createData(data_type, shape, compression == Compression::Auto ? compr : compression);
+    } catch (...) {
+        // do not leave an array without data behind
+        g->removeAllLinks(name);
+        throw;
+    }
     return da;
 }
 
@@ -334,7 +340,13 @@ std::shared_ptr<IDataFrame> BlockHDF5::createDataFrame(const std::string &name,
     H5Group group = g->openGroup(name, true);
 
     auto df = make_shared<DataFrameHDF5>(file(), block(), group, id, type, name);
-    df->createData(cols, compression == Compression::Auto ? compr : compression);
+    try {
+        df->createData(cols, compression == Compression::Auto ? compr : compression);
+    } catch (...) {
+        // do not leave a frame without data behind
+        g->removeAllLinks(name);
+        throw;
+    }
     return df;
 }
 
